@@ -37,18 +37,31 @@ Record pc_facts := {
   pf_usegas : bool            (* Run: contract.UseGas(local meter consumed) after the switch, before the error return *)
 }.
 
+(** guards in front of the library calls that panic *)
+Record panic_guards := {
+  g_len : bool;          (* requiredGas: len(input) < 4 handled before input[:4] *)
+  g_denom : bool;        (* bankMsgSend: sdk.ValidateDenom(denom) checked before sdk.NewCoin *)
+  g_amount : bool;       (* bankMsgSend: amount sign checked before sdk.NewCoin *)
+  g_evm_denom : bool;    (* sendToEvm: sdk.ValidateDenom(bankDenom) before the FunTokens index lookup *)
+  g_erc20_nul : bool     (* getErc20Address: NUL characters rejected before the FunTokens index lookup *)
+}.
+
 Record facts := {
   f_funtoken : pc_facts;
   f_wasm : pc_facts;
   f_oracle : pc_facts;
-  f_len_guard : bool;             (* requiredGas: len(input) < 4 handled before input[:4] *)
-  f_denom_guard : bool;           (* bankMsgSend: sdk.ValidateDenom(denom) checked before sdk.NewCoin *)
-  f_amount_guard : bool;          (* bankMsgSend: amount sign checked before sdk.NewCoin *)
+  f_guards : panic_guards;
   f_local_meter : bool;           (* OnRunStart: cacheCtx gas meter = sdk.NewGasMeter(gasLimit) *)
   f_oog_only : bool;              (* HandleOutOfGasPanic converts sdk.ErrorOutOfGas only and re-panics the rest *)
   f_direct_ro : bool;             (* geth fork StaticCall / DelegateCall / CallCode run precompiles with readOnly = true *)
   f_call_inherits_static : bool   (* geth fork EVM.Call hands the interpreter's read-only flag to precompiles *)
 }.
+
+Definition f_len_guard (F : facts) := g_len (f_guards F).
+Definition f_denom_guard (F : facts) := g_denom (f_guards F).
+Definition f_amount_guard (F : facts) := g_amount (f_guards F).
+Definition f_evm_denom_guard (F : facts) := g_evm_denom (f_guards F).
+Definition f_erc20_nul_guard (F : facts) := g_erc20_nul (f_guards F).
 
 Inductive pcid := PFunToken | PWasm | POracle.
 
@@ -157,6 +170,9 @@ Definition new_coin_panics (denom : list Z) (amt : Z) : bool := negb (valid_deno
 
 Inductive vres := VErr | VPanic | VPass.
 
+(** collections.StringKeyEncoder.Encode panics on a NUL character *)
+Definition has_nul (s : list Z) : bool := existsb (fun c => c =? 0) s.
+
 Definition funds_panic (l : list (list Z * Z)) : bool := existsb (fun c => int_from_big_panics (snd c)) l.
 
 (** guard/validator prefix of every handler after the context guard, up to the first keeper call *)
@@ -168,7 +184,10 @@ Definition validate (F : facts) (m : mid) (args : list arg) : vres :=
   | FT_whoAmI, [AStr who b _] =>
       (* Validate() then MustAccAddressFromBech32 on the bech32 branch: same predicate, no panic *)
       if addr_ok who b then VPass else VErr
-  | FT_sendToEvm, [AStr _ _ _; AUint _; AStr _ _ _] => VPass
+  | FT_sendToEvm, [AStr d _ _; AUint _; AStr _ _ _] =>
+      if f_evm_denom_guard F && negb (valid_denom d) then VErr
+      else if has_nul d then VPanic           (* FunTokens.Indexes.BankDenom.ExactMatch(ctx, bankDenom) *)
+      else VPass
   | FT_bankMsgSend, [AStr to b _; AStr d _ _; AUint a] =>
       if negb (addr_ok to b) then VErr
       else if f_denom_guard F && negb (valid_denom d) then VErr
@@ -177,7 +196,10 @@ Definition validate (F : facts) (m : mid) (args : list arg) : vres :=
       else if new_coin_panics d a then VPanic
       else if a =? 0 then VErr            (* sdk.NewCoins drops the zero coin; MsgSend.ValidateBasic rejects *)
       else VPass
-  | FT_getErc20Address, [AStr d _ tf] => if valid_denom d || tf then VPass else VErr
+  | FT_getErc20Address, [AStr d _ tf] =>
+      if f_erc20_nul_guard F && has_nul d then VErr
+      else if valid_denom d || tf then (if has_nul d then VPanic else VPass)
+      else VErr
   | W_execute, [AStr _ b _; ABytes j; AFunds l] =>
       if negb b then VErr else if negb j then VErr else if funds_panic l then VPanic else VPass
   | W_query, [AStr _ b _; ABytes j] => if negb b then VErr else if negb j then VErr else VPass
@@ -314,28 +336,33 @@ End Run.
 Arguments BOk {St}. Arguments BErr {St}. Arguments BOog {St}.
 Arguments r_out {St}. Arguments r_left {St}. Arguments r_st {St}.
 
-(* ------------------------------------------------------------------ the pinned tree (before fix: 7d2b3b1 / 170e86a) *)
+(* ------------------------------------------------------------------ variants of a facts record *)
 
-Definition with_len_guard (F : facts) (b : bool) : facts :=
-  {| f_funtoken := f_funtoken F; f_wasm := f_wasm F; f_oracle := f_oracle F; f_len_guard := b;
-     f_denom_guard := f_denom_guard F; f_amount_guard := f_amount_guard F; f_local_meter := f_local_meter F;
-     f_oog_only := f_oog_only F; f_direct_ro := f_direct_ro F; f_call_inherits_static := f_call_inherits_static F |}.
+Definition with_guards (F : facts) (g : panic_guards) : facts :=
+  {| f_funtoken := f_funtoken F; f_wasm := f_wasm F; f_oracle := f_oracle F; f_guards := g;
+     f_local_meter := f_local_meter F; f_oog_only := f_oog_only F; f_direct_ro := f_direct_ro F;
+     f_call_inherits_static := f_call_inherits_static F |}.
 
-Definition with_denom_guard (F : facts) (b : bool) : facts :=
-  {| f_funtoken := f_funtoken F; f_wasm := f_wasm F; f_oracle := f_oracle F; f_len_guard := f_len_guard F;
-     f_denom_guard := b; f_amount_guard := b; f_local_meter := f_local_meter F;
-     f_oog_only := f_oog_only F; f_direct_ro := f_direct_ro F; f_call_inherits_static := f_call_inherits_static F |}.
+Definition all_guards : panic_guards :=
+  {| g_len := true; g_denom := true; g_amount := true; g_evm_denom := true; g_erc20_nul := true |}.
+(** the pinned tree, before fix: 7d2b3b1 *)
+Definition no_len_guard : panic_guards :=
+  {| g_len := false; g_denom := true; g_amount := true; g_evm_denom := true; g_erc20_nul := true |}.
+Definition no_denom_guard : panic_guards :=
+  {| g_len := true; g_denom := false; g_amount := false; g_evm_denom := true; g_erc20_nul := true |}.
+(** before the NUL-character fix *)
+Definition no_nul_guards : panic_guards :=
+  {| g_len := true; g_denom := true; g_amount := true; g_evm_denom := false; g_erc20_nul := false |}.
 
 Definition with_oracle_oog (F : facts) (b : bool) : facts :=
   {| f_funtoken := f_funtoken F; f_wasm := f_wasm F;
      f_oracle := {| pf_methods := pf_methods (f_oracle F); pf_start_first := pf_start_first (f_oracle F);
                     pf_oog_deferred := b; pf_usegas := pf_usegas (f_oracle F) |};
-     f_len_guard := f_len_guard F; f_denom_guard := f_denom_guard F; f_amount_guard := f_amount_guard F;
+     f_guards := f_guards F;
      f_local_meter := f_local_meter F; f_oog_only := f_oog_only F; f_direct_ro := f_direct_ro F;
      f_call_inherits_static := f_call_inherits_static F |}.
 
 Definition with_call_inherits (F : facts) (b : bool) : facts :=
-  {| f_funtoken := f_funtoken F; f_wasm := f_wasm F; f_oracle := f_oracle F;
-     f_len_guard := f_len_guard F; f_denom_guard := f_denom_guard F; f_amount_guard := f_amount_guard F;
+  {| f_funtoken := f_funtoken F; f_wasm := f_wasm F; f_oracle := f_oracle F; f_guards := f_guards F;
      f_local_meter := f_local_meter F; f_oog_only := f_oog_only F; f_direct_ro := f_direct_ro F;
      f_call_inherits_static := b |}.
